@@ -1,3 +1,78 @@
-(* C04 — placeholder statements while the simulation proof is being written *)
+(* C04 — stop-and-continue is invisible: split runs equal one uninterrupted run.
+   Model: theories/Interp.v (save, load, run_one, run_history).
+   PROVED here (partial): the id part of the statement for every recipe of the fragment and
+   every composition k = k1+...+km — ids resume exactly where they stopped, every run writes
+   exactly its own next block of ids, so per table the split history issues the same id set
+   1..n as any other history of the same recipe that ends with the same counters; just_once
+   bindings are not re-created by a continued run and keep table and id through the file.
+   NOT proved: row-for-row equality of split and unsplit outputs (the simulation
+   `load (save s) ~ s` over all evaluator steps, stated below as the goal).  That equality is
+   decided on every run by the differential of harness/c04.py against the implementation
+   and against this model's run_history.
+
+   Goal statement (not a theorem of this file):
+     forall r ks outs, persistable r -> run_history r ks None = Ok outs ->
+       run_history r [sum ks] None = Ok [concat outs].                                   *)
+From Coq Require Import ZArith List Permutation.
 From SFV Require Import Base Interp.
-Theorem C04_placeholder : True. Proof. exact I. Qed.
+From SFV.P Require Import InterpP InterpHeapP IdsP RefsP OnceP.
+Import ListNotations. Open Scope Z_scope. Open Scope string_scope.
+
+(* a continued run resumes numbering immediately after the highest id in the file *)
+Theorem C04_ids_resume_partial :
+  forall e s c T, save s = Ok c -> last_id (load e c) T = last_id s T.
+Proof. exact resume_after_highest. Qed.
+Print Assumptions C04_ids_resume_partial.
+
+(* whatever the composition, the history's ids per visible table are exactly 1..n *)
+Theorem C04_split_ids_dense_partial :
+  forall (r : recipe) (ks : list nat) (rowss : list (list orow)),
+    run_history r ks None = Ok rowss ->
+    forall T, hidden T = false -> exists n, Permutation (written T (concat rowss)) (Zseq 1 n).
+Proof. exact ids_dense_history. Qed.
+Print Assumptions C04_split_ids_dense_partial.
+
+(* each run of the chain writes exactly the next block of ids of every visible table *)
+Theorem C04_each_run_next_block_partial :
+  forall e stmts c k s0 s,
+    start_ok s0 -> iterations k e stmts c s0 = Ok s ->
+    start_ok (upd_out s []) /\
+    forall T, last_id s0 T <= last_id s T /\
+      (hidden T = false ->
+       Permutation (written T (out s))
+                   (Zseq (last_id s0 T + 1) (Z.to_nat (last_id s T - last_id s0 T)))).
+Proof. exact ids_dense_run. Qed.
+Print Assumptions C04_each_run_next_block_partial.
+
+(* a continued run never re-creates or re-binds just_once rows *)
+Theorem C04_continued_run_keeps_singletons_partial :
+  forall k e stmts s s',
+    once_top_only stmts = true -> iterations k e stmts true s = Ok s' ->
+    same_persist s s' /\ heap_ext s s'.
+Proof. exact later_iterations_keep_singletons_k. Qed.
+Print Assumptions C04_continued_run_keeps_singletons_partial.
+
+(* references written by a continued run resolve inside the run or to an id recorded in the file *)
+Theorem C04_continued_refs_resolve_partial :
+  forall r k s c s',
+    Bd s -> save s = Ok c ->
+    (forall T, 0 <= match lookup T (k_ids c) with Some z => z | None => 0 end) ->
+    run_one r k (Some c) = Ok s' ->
+    forall row n T i, In row (out s') -> In (n, ORef T i) (snd row) -> hidden T = false ->
+      (1 <= i <= last_id s T) \/ exists row', In row' (out s') /\ fst row' = T /\ orow_id row' = [i].
+Proof. exact no_dangling_continued. Qed.
+Print Assumptions C04_continued_refs_resolve_partial.
+
+(* non-vacuity and the shape of the goal on a concrete recipe: 1+2 = 3 *)
+Definition ex4 : recipe :=
+  mkRecipe 3 []
+    [SObj (Tpl "J" (Some "jj") None true [("n", FLitInt 7)] []);
+     SObj (Tpl "A" None (Some (FLitInt 2)) false
+            [("a", FRef "jj"); ("b", FFormula [PExpr (EAdd (EAttr (EVar "jj") "n") (EVar "id"))])] [])].
+
+Example C04_ex_split_eq_unsplit :
+  match run_history ex4 [1; 2]%nat None, run_history ex4 [3]%nat None with
+  | Ok split, Ok [whole] => list_eqb orow_eqb (concat split) whole
+  | _, _ => false
+  end = true.
+Proof. vm_compute. reflexivity. Qed.
